@@ -45,7 +45,7 @@ ANCHORS = [
 FLOORS = {'*': {'history:cases': 300, 'history:probes-after-failure': 50, 'history:probes-after-context-request': 50,
                 'leak:function': 6, 'leak:positional-context': 6, 'leak:view': 6, 'leak:base': 6, 'leak:jsonschema': 6,
                 'leak:pydantic': 6, 'leak:N=1000': 3, 'threads:runs': 4, 'threads:injected-yields': 1000,
-                'threads:distinct-lines': 20, 'threads:overlapping-dispatches': 100, 'threads:responses': 2000}}
+                'threads:distinct-lines': 20, 'threads:overlapping-dispatches': 100, 'threads:responses': 2000, 'threads:cold-dispatcher-with-middlewares': 40, 'growth:runs': 8}}
 
 
 # ---------------------------------------------------------------------------------------------------- history
@@ -241,6 +241,55 @@ def run_leak(ctx, style, validator_name, is_async, n):
     ctx.ok(f'leak:{style}:{validator_name}:{kind}', cls, sample=wit)
 
 
+def run_growth(ctx, is_async, what):
+    """many requests whose client-controlled strings (method names, ids, parameter values) are ALL DISTINCT: nothing
+    derived from them may be kept; judged on gc object counts and on the logging manager's logger table"""
+    import logging
+    w = world.World(is_async, 3)
+    kind = 'async' if is_async else 'sync'
+
+    def text(i):
+        if what == 'unknown-methods':
+            return json.dumps({'jsonrpc': '2.0', 'id': f'id{i}', 'method': f'no_such_method_{i}', 'params': [f'v{i}']})
+        if what == 'failing-known-methods':
+            return json.dumps({'jsonrpc': '2.0', 'id': i, 'method': ('boom', 'rpcerr', 'ok')[i % 3],
+                               'params': (['ValueError', f'm{i}'], [4000 + i, f'msg{i}', {'d': i}], {'zz': f'u{i}'})[i % 3]})
+        if what == 'garbage':
+            return ('{"jsonrpc": "2.0", "id": %d, "method": ' % i) + ('"x%d"' % i) * (i % 2) + ('[' * (i % 5))
+        return json.dumps([{'jsonrpc': '2.0', 'id': f'a{i}', 'method': f'nm_{i}'}, {'jsonrpc': '2.0', 'method': 'ok', 'params': [f'p{i}']},
+                           {'jsonrpc': '2.0', 'id': f'b{i}', 'method': 'echo', 'params': [{'k': f'val{i}'}]}])
+
+    def one(i):
+        w.log.clear()
+        t = text(i)
+        c = world.Context(i)
+        (world.run(w.dispatcher.dispatch(t, context=c)) if is_async else w.dispatcher.dispatch(t, context=c))
+
+    try:
+        for i in range(300):
+            one(i)
+        gc.collect()
+        c1, l1 = len(gc.get_objects()), len(logging.Logger.manager.loggerDict)
+        for i in range(300, 1300):
+            one(i)
+        gc.collect()
+        c2, l2 = len(gc.get_objects()), len(logging.Logger.manager.loggerDict)
+    except Exception as e:
+        ctx.violation(f'dispatch-raises:{type(e).__name__}', 'growth', (kind, what), exception=e)
+        return
+    ctx.hit('growth:runs')
+    slope = (c2 - c1) / 1000.0
+    wit = dict(dispatcher=kind, requests='1000 requests with pairwise distinct ' + what, gc_objects=[c1, c2], slope_per_request=slope,
+               loggers=[l1, l2])
+    if l2 - l1 > 5:
+        ctx.violation('logger-table-grows-with-client-controlled-names', f'growth:{what}', (kind, what), **wit)
+        return
+    if slope > 0.05:
+        ctx.violation(f'object-count-grows-with-requests:{what}', f'growth:{what}', (kind, what), **wit)
+        return
+    ctx.ok(f'growth:{what}:{kind}', (kind, what), sample=wit)
+
+
 # ---------------------------------------------------------------------------------------------------- threads
 
 INJ_TOOL = 4
@@ -308,7 +357,7 @@ def thread_corpus(t, n):
             out.append([docs.obj(id=tok, method='ok', params=[tok]), docs.obj(method='ok', params=[tok + 'n']),
                         docs.obj(id=tok + 'b', method='ctxp', params=[tok])])
         elif k == 8:
-            out.append(docs.obj(id=tok, method='nope', params=[tok]))
+            out.append(docs.obj(id=tok, method='nope', params=[tok]) if i % 24 else docs.obj(id=tok, method='noargs'))
         elif k == 9:
             out.append(docs.obj(id=tok, method='ok', params={'zz': tok}))
         elif k == 10:
@@ -318,9 +367,28 @@ def thread_corpus(t, n):
     return out
 
 
-def run_threads(ctx, n_threads, per_thread, prob):
+def _stamp_mw(request, context, handler):
+    resp = handler(request, context)
+    if not isinstance(resp, pjrpc.common.UnsetType) and resp.is_success:
+        return pjrpc.common.v20.Response(id=resp.id, result=['stamped', resp.result])
+    return resp
+
+
+def _deny_mw(request, context, handler):
+    # an "auth" middleware: requests for `noargs` never reach the method
+    if request.method == 'noargs':
+        return pjrpc.common.UNSET if request.id is None else pjrpc.common.v20.Response(id=request.id, result='denied')
+    return handler(request, context)
+
+
+def run_threads(ctx, n_threads, per_thread, prob, middlewares=False):
     from ..core import REPO
-    w = world.World(False, None)
+    kw = {'middlewares': [_stamp_mw, _deny_mw]} if middlewares else {}
+    # a fresh (cold) dispatcher: its very first requests arrive concurrently
+    w = world.World(False, None, **kw)
+    twin = world.World(False, None, **kw)
+    if middlewares:
+        ctx.hit('threads:cold-dispatcher-with-middlewares')
     # probe methods log into one shared list: harmless, but the executions are not compared under threads
     results = [None] * n_threads
     state = {'inside': 0, 'overlaps': 0}
@@ -375,16 +443,23 @@ def run_threads(ctx, n_threads, per_thread, prob):
                 ctx.violation(f'dispatch-raises-under-threads:{type(r).__name__}', 'threads', cls, **wit)
                 bad += 1
                 continue
-            exp = model.expected(req, None, ctx_token=f'CTX{t}')
             doc = None if r is None else strictjson.decode(r[0])
-            prob_ = model.match(exp.response, doc) if exp.response is not None else (None if r is None else 'unexpected-response')
+            if middlewares:
+                # the sequential answer of an identically configured dispatcher is the reference
+                tw = serverside.observe(twin, json.dumps(req), context=world.Context(f'CTX{t}'))
+                same = (tw.raw is None) == (r is None) and (r is None or strictjson.typed_eq(tw.doc, doc))
+                prob_ = None if same else 'differs-from-sequential-answer'
+                exp = None
+            else:
+                exp = model.expected(req, None, ctx_token=f'CTX{t}')
+                prob_ = model.match(exp.response, doc) if exp.response is not None else (None if r is None else 'unexpected-response')
             foreign = r is not None and any(f'T{o}_' in r[0] or f'CTX{o}"' in r[0] for o in range(n_threads) if o != t)
             if foreign:
                 ctx.violation('response-carries-another-threads-token-or-context', 'threads', cls, **wit)
                 bad += 1
             elif prob_:
-                ctx.violation('response-differs-from-single-threaded-answer', 'threads', cls, difference=prob_,
-                              expected=model.render(exp.response), **wit)
+                ctx.violation('response-differs-from-single-threaded-answer' + (':cold-dispatcher-with-middlewares' if middlewares else ''),
+                              'threads', cls, difference=prob_, expected=model.render(exp.response) if exp else 'sequential twin', **wit)
                 bad += 1
             else:
                 ctx.ok(f'threads:{n_threads}', cls, sample=None)
@@ -428,6 +503,12 @@ def gen(ctx):
     for n_threads, prob in ([(2, 0.1), (4, 0.05), (8, 0.1), (16, 0.02), (3, 0.2), (8, 0.02), (12, 0.1), (16, 0.2)] if not deep else
                             [(t, p) for t in (2, 3, 4, 6, 8, 12, 16) for p in (0.01, 0.02, 0.05, 0.1, 0.2, 0.4)] * 3):
         yield 'threads', dict(n_threads=n_threads, per_thread=200 if not deep else 400, prob=prob)
+    # cold dispatchers with middlewares: many short runs, because only the first requests of each dispatcher matter
+    for rep in range(400 if deep else 60):
+        yield 'threads', dict(n_threads=(2, 4, 8, 3)[rep % 4], per_thread=6, prob=(0.3, 0.1, 0.5)[rep % 3], middlewares=True)
+    for is_async in (False, True):
+        for what in ('unknown-methods', 'failing-known-methods', 'garbage', 'batches'):
+            yield 'growth', dict(is_async=is_async, what=what)
 
 
-KINDS = {'history': run_history, 'leak': run_leak, 'threads': run_threads}
+KINDS = {'history': run_history, 'leak': run_leak, 'threads': run_threads, 'growth': run_growth}
